@@ -19,6 +19,9 @@ pub struct Scenario {
     /// per caller thread: keyframe indices to render, in order
     pub threads: Vec<Vec<usize>>,
     pub shuttle_pool: bool,
+    /// `Some(n)`: rayon-like simulated pool with n workers and one queue (see `pool::sched::BoundedPool`)
+    #[serde(default)]
+    pub bounded_workers: Option<usize>,
     pub fault: Fault,
     #[cfg(feature = "sched")]
     pub iterations: Vec<crate::checks::shuttle_rt::IterSpec>,
@@ -29,7 +32,7 @@ pub struct Scenario {
 pub fn digest(sc: &Scenario) -> u64 {
     let mut h = crate::harness::Fnv::new();
     h.write(&sc.case.bytes);
-    h.write(format!("{:?}{:?}{:?}{}", sc.threads, sc.fault, sc.iterations, sc.shuttle_pool).as_bytes());
+    h.write(format!("{:?}{:?}{:?}{}{:?}", sc.threads, sc.fault, sc.iterations, sc.shuttle_pool, sc.bounded_workers).as_bytes());
     h.finish()
 }
 
@@ -56,7 +59,7 @@ mod imp {
     use crate::jxlgen::random::{GenConfig, random_frame, random_program};
     use crate::jxlgen::*;
     use crate::observe::RenderObs;
-    use crate::pool::sched::ShuttlePool;
+    use crate::pool::sched::{BoundedGuard, BoundedPool, ShuttlePool};
     use crate::rng::{Rng, derive};
     use crate::simio::{ChunkSchedule, StorageFault};
     use jxl_oxide::{AllocTracker, JxlImage, JxlThreadPool};
@@ -182,7 +185,9 @@ mod imp {
             program: serde_json::to_value(&prog).ok(),
             bytes,
         };
-        Scenario { case, family: family.into(), threads, shuttle_pool: rng.chance(1, 2), fault, iterations }
+        let shuttle_pool = rng.chance(1, 2);
+        let bounded_workers = (shuttle_pool && rng.chance(1, 2)).then(|| rng.usize_in(1, 3));
+        Scenario { case, family: family.into(), threads, shuttle_pool, bounded_workers, fault, iterations }
     }
 
     fn viol(seed: u64, sc: &Scenario, class: String, detail: String) -> Violation {
@@ -257,13 +262,17 @@ mod imp {
                 let results = results.clone();
                 let threads = sc.threads.clone();
                 let shuttle_pool = sc.shuttle_pool;
+                let bounded = sc.bounded_workers;
                 let fault = sc.fault.clone();
                 run_once(it, move || {
                     let tracker = AllocTracker::with_limit(1 << 31);
-                    let spool = shuttle_pool.then(|| ShuttlePool::new(2));
-                    let pool = match &spool {
-                        Some(p) => JxlThreadPool::verif(p.clone() as Arc<dyn jxl_threadpool::verif::VerifPool>),
-                        None => JxlThreadPool::none(),
+                    let spool = (shuttle_pool && bounded.is_none()).then(|| ShuttlePool::new(2));
+                    let bpool = bounded.filter(|_| shuttle_pool).map(BoundedPool::new);
+                    let _bguard = bpool.clone().map(BoundedGuard);
+                    let pool = match (&spool, &bpool) {
+                        (Some(p), _) => JxlThreadPool::verif(p.clone() as Arc<dyn jxl_threadpool::verif::VerifPool>),
+                        (_, Some(b)) => JxlThreadPool::verif(b.clone() as Arc<dyn jxl_threadpool::verif::VerifPool>),
+                        _ => JxlThreadPool::none(),
                     };
                     let img = match load_chunked(&bytes, &ChunkSchedule::whole(bytes.len()), Some(tracker.clone()), pool) {
                         Ok(i) => Arc::new(i),
@@ -297,6 +306,9 @@ mod imp {
                     }
                     if let Some(p) = &spool {
                         p.join_detached();
+                    }
+                    if let Some(b) = &bpool {
+                        b.join_detached();
                     }
                     drop(img);
                 })
